@@ -610,6 +610,41 @@ Section ParallelFacts.
     unfold okc in X. apply filter_In in X. destruct X as [X1 X2]. apply andb_prop in X2. destruct X2 as [X2 _].
     unfold calls_by. apply in_map. apply filter_In. split; assumption.
   Qed.
+
+  (* ------------------------------------------------------------------ refused store writes are invisible *)
+  Notation xrun := (xrun ltb zero roundp smul).
+
+  Lemma xrun_erase (e : env) : forall tr ps, xrun e tr ps = run e (erase tr) ps.
+  Proof.
+    induction tr as [|[s|id att] tr IH]; intros ps; cbn; [reflexivity| |]; apply IH.
+  Qed.
+
+  (* any number of refused write attempts, anywhere in the interleaving, as long as every write goes through in the
+     end (the execution without them is a complete interleaving of the tasks): same observation as evaluate_serial *)
+  Theorem refused_writes_invisible (e : env) : local_env e -> forall batch st st' xtr,
+    NoDup batch -> evaluate_serial e st batch = (st', Done) ->
+    merge (par_tasks e (s_heap st) batch) (erase xtr) ->
+    same_obs (p_st (xrun e xtr (lift st))) st'.
+  Proof.
+    intros L batch st st' xtr ND E M. rewrite xrun_erase.
+    exact (parallel_equals_evaluate_serial e L batch st st' (erase xtr) ND E M).
+  Qed.
+
+  Theorem refused_writes_once_and_persisted (e : env) : local_env e -> forall batch st st' xtr,
+    NoDup batch -> s_calls st = [] -> evaluate_serial e st batch = (st', Done) ->
+    merge (par_tasks e (s_heap st) batch) (erase xtr) ->
+    Permutation (s_failed (p_st (xrun e xtr (lift st)))) (s_failed st') /\
+    forall id i, In id batch -> nth_error (s_heap st) id = Some i -> istate i = Empty ->
+      length (okc e id (s_calls (p_st (xrun e xtr (lift st))))) = 1 /\
+      exists i', nth_error (s_heap (p_st (xrun e xtr (lift st)))) id = Some i' /\
+                 row_of id (s_store (p_st (xrun e xtr (lift st)))) = Some i' /\ istate i' = Evaluated.
+  Proof.
+    intros L batch st st' xtr ND C0 E M. rewrite xrun_erase. split.
+    - exact (proj1 (proj2 (proj2 (parallel_equals_evaluate_serial e L batch st st' (erase xtr) ND E M)))).
+    - intros id i IN H Em. split.
+      + exact (proj1 (objective_once e L batch st st' (erase xtr) ND C0 E M id i H) Em IN).
+      + exact (evaluated_design_persisted e L batch st st' (erase xtr) ND E M id i IN H Em).
+  Qed.
 End ParallelFacts.
 
 Arguments peq {T} a b.
